@@ -20,6 +20,9 @@ type c10Case struct {
 	Secret    string `json:"secret"`
 	Endpoint  string `json:"endpoint"`
 	SkipAuth  bool   `json:"jwt_bearer_can_skip_client_auth"`
+	// OtherJWTBearerSwitches: the other JWT-bearer switches (jti optional, iat optional) are on while "can skip client
+	// authentication" is off: only that one switch may let a request through without client authentication
+	OtherJWTBearerSwitches bool `json:"other_jwt_bearer_switches_on,omitempty"`
 }
 
 var (
@@ -32,7 +35,7 @@ var (
 const c10ID = "X"
 
 func c10Setup(c c10Case) (*World, fosite.Client, map[string]string) {
-	w := NewWorld(Profile{Bcrypt: true, JWTBearerSkipAuth: c.SkipAuth})
+	w := NewWorld(Profile{Bcrypt: true, JWTBearerSkipAuth: c.SkipAuth, JTIOptional: c.OtherJWTBearerSwitches, IATOptional: c.OtherJWTBearerSwitches})
 	id := c10ID
 	if c.Reg == "special-chars" {
 		id = "enc:client/+ %"
@@ -453,13 +456,18 @@ func init() {
 					if tr == "other-client-basic+query-client_id" && (j.Endpoint != "par" || se != "current") {
 						continue // only the pushed-authorization endpoint takes the client from a request parameter
 					}
-					c := c10Case{Reg: j.Reg, Transport: tr, Secret: se, Endpoint: j.Endpoint, SkipAuth: skip}
-					n := len(res.Viol)
-					c10Run(c, res)
-					res.Evals++
-					res.distinct(fmt.Sprintf("%+v", c))
-					if len(res.Viol) == n {
-						res.sample(c)
+					for _, other := range []bool{false, true} {
+						if other && (j.Endpoint != "token/jwt-bearer" || skip) {
+							continue
+						}
+						c := c10Case{Reg: j.Reg, Transport: tr, Secret: se, Endpoint: j.Endpoint, SkipAuth: skip, OtherJWTBearerSwitches: other}
+						n := len(res.Viol)
+						c10Run(c, res)
+						res.Evals++
+						res.distinct(fmt.Sprintf("%+v", c))
+						if len(res.Viol) == n {
+							res.sample(c)
+						}
 					}
 				}
 			}
